@@ -29,11 +29,47 @@ def log(*a):
     print(*a, file=sys.stderr, flush=True)
 
 
+# every invocation of the driver works in a directory of its own, so that checks can run concurrently
+RUN = os.path.join(WORK, "run_%d" % os.getpid())
+
+
+def _cleanup():
+    if not os.environ.get("VERIF_KEEP"):
+        shutil.rmtree(RUN, ignore_errors=True)
+    else:
+        log("[keep] work files in " + RUN)
+
+
+import atexit  # noqa: E402
+atexit.register(_cleanup)
+
+
 def workdir(name):
-    d = os.path.join(WORK, name)
+    d = os.path.join(RUN, name)
     shutil.rmtree(d, ignore_errors=True)
     os.makedirs(d, exist_ok=True)
+    os.chmod(WORK, 0o755)
+    os.chmod(RUN, 0o777)
     return d
+
+
+def harness_env():
+    """environment for the harness binaries: their scratch directory"""
+    e = dict(os.environ)
+    d = os.path.join(RUN, "tmp")
+    os.makedirs(d, exist_ok=True)
+    os.chmod(d, 0o777)
+    e["VERIF_RUNDIR"] = d
+    return e
+
+
+def run_harness(argv, timeout):
+    """run a harness binary in a session of its own (its reporting children find their report directory by
+    session id)"""
+    os.makedirs(os.path.join(WORK, "vr"), exist_ok=True)
+    os.chmod(os.path.join(WORK, "vr"), 0o777)
+    return subprocess.run(argv, stdin=subprocess.DEVNULL, stdout=subprocess.PIPE, stderr=subprocess.PIPE, text=True,
+                          timeout=timeout, env=harness_env(), start_new_session=True)
 
 
 def env_offline():
